@@ -322,7 +322,26 @@ func storeOp(c *Ctx, op string, a map[string]string) {
 	c.Emit(line, obs)
 }
 
-func replayStore(c *Ctx, op string, a map[string]string) { storeOp(c, op, a) }
+func replayStore(c *Ctx, op string, a map[string]string) {
+	if op == "udp.overlap" {
+		b, _ := strconv.Atoi(a["burst"])
+		udpOverlap(c, a["prelude"], b)
+		return
+	}
+	if op == "cfg.store_bg" {
+		var life, gci int64
+		fmt.Sscan(a["life"], &life)
+		fmt.Sscan(a["gci"], &gci)
+		cfgStoreBG(c, a["kind"], life, gci)
+		return
+	}
+	if op == "clock.stall" {
+		ms, _ := strconv.Atoi(a["ms"])
+		clockStall(c, ms)
+		return
+	}
+	storeOp(c, op, a)
+}
 
 // ---- generators -------------------------------------------------------------------------------
 
@@ -392,6 +411,15 @@ func init() {
 }
 
 func runStore(c *Ctx, pf storeProfile) {
+	if pf.name == "C05" {
+		clockStall(c, 600)
+		// the stores' own expiry loops: default lifetime when none is configured, a very short one expires
+		for _, kind := range []string{"memory", "redis"} {
+			for _, life := range []int64{0, -5, int64(time.Millisecond), int64(time.Hour)} {
+				cfgStoreBG(c, kind, life, int64(30*time.Millisecond))
+			}
+		}
+	}
 	for _, l := range c.CorpusLines() {
 		op, a := parseOp(l)
 		replayStore(c, op, a)
